@@ -1532,36 +1532,58 @@ func (c *Conn) ApiVersions() ([]ApiVersion, error) {
 		defer verifEvent("C.Body", c, id, "unlock")
 	}
 
+	r, size, err := c.readApiVersions(size)
+
+	// The response must end where the list of versions ends, and a response
+	// that could not be read completely leaves the connection in the middle
+	// of a frame: as for any other request, only errors reported by the broker
+	// leave the connection usable.
+	var kafkaError Error
+	if err == nil || errors.As(err, &kafkaError) {
+		if sizeErr := expectZeroSize(size, nil); sizeErr != nil {
+			err = sizeErr
+		}
+	}
+	if err != nil && !errors.As(err, &kafkaError) {
+		c.conn.Close()
+		return nil, err
+	}
+	return r, err
+}
+
+// readApiVersions reads the body of an ApiVersions v0 response of the given
+// size, it returns the number of bytes of the response left unread.
+func (c *Conn) readApiVersions(size int) (r []ApiVersion, remain int, err error) {
 	var errorCode int16
 	if size, err = readInt16(&c.rbuf, size, &errorCode); err != nil {
-		return nil, err
+		return nil, size, err
 	}
 	var arrSize int32
 	if size, err = readInt32(&c.rbuf, size, &arrSize); err != nil {
-		return nil, err
+		return nil, size, err
 	}
 	if arrSize < 0 || int(arrSize) > size/6 {
 		// every entry takes 6 bytes of the response: a negative or larger count is a malformed frame
-		return nil, fmt.Errorf("invalid number of api versions (%d) with %d bytes remaining in the response: %w", arrSize, size, io.ErrUnexpectedEOF)
+		return nil, size, fmt.Errorf("invalid number of api versions (%d) with %d bytes remaining in the response: %w", arrSize, size, io.ErrUnexpectedEOF)
 	}
-	r := make([]ApiVersion, arrSize)
+	r = make([]ApiVersion, arrSize)
 	for i := 0; i < int(arrSize); i++ {
 		if size, err = readInt16(&c.rbuf, size, &r[i].ApiKey); err != nil {
-			return nil, err
+			return nil, size, err
 		}
 		if size, err = readInt16(&c.rbuf, size, &r[i].MinVersion); err != nil {
-			return nil, err
+			return nil, size, err
 		}
 		if size, err = readInt16(&c.rbuf, size, &r[i].MaxVersion); err != nil {
-			return nil, err
+			return nil, size, err
 		}
 	}
 
 	if errorCode != 0 {
-		return r, Error(errorCode)
+		return r, size, Error(errorCode)
 	}
 
-	return r, nil
+	return r, size, nil
 }
 
 // connDeadline is a helper type to implement read/write deadline management on
